@@ -21,7 +21,7 @@ for pkg,names in sorted(by.items()):
 PY
     fail=0; n=0
     while read -r cmd; do
-      out=$(cd $wt/lib && flock /tmp/mut/suite.lock bash -c "$cmd" 2>&1); rc=$?
+      out=$(cd $wt/lib && flock ${SEED_LOCK:-/tmp/mut/suite.lock} bash -c "$cmd" 2>&1); rc=$?
       n=$((n+1)); [ $rc -ne 0 ] && { fail=1; echo "$id: $cmd -> rc=$rc"; echo "$out" | grep -E '^(--- FAIL|FAIL|panic)' | head -5; }
     done < /tmp/seedst-$id.cmds
     rm -f /tmp/seedst-$id.cmds
